@@ -898,6 +898,7 @@ func checkFlexSem(w *World, r *Report, fd *ast.FuncDecl, caseConsts map[int64]*a
 			branch int // 0 none, 1 then, 2 else
 		}
 		var calls []call
+		condProblem := ""
 		var walk func(n ast.Node, branch int)
 		walk = func(n ast.Node, branch int) {
 			ast.Inspect(n, func(m ast.Node) bool {
@@ -914,10 +915,16 @@ func checkFlexSem(w *World, r *Report, fd *ast.FuncDecl, caseConsts map[int64]*a
 					if m == n {
 						return true
 					}
-					// the inner if of flex1: condition compares |dx| with |dy|
+					// the inner if of flex1: condition compares |dx| with |dy|; which branch is
+					// the case |dx| > |dy| is read off the condition (either operand order, negated or not)
 					if strings.Contains(types.ExprString(x.Cond), "Abs") && x.Else != nil {
-						walk(x.Body, 1)
-						walk(x.Else, 2)
+						thenCase, why := flex1ThenCase(x.Cond, lin)
+						if thenCase == 0 {
+							condProblem = why
+							thenCase = 1
+						}
+						walk(x.Body, thenCase)
+						walk(x.Else, 3-thenCase)
 						return false
 					}
 				case *ast.CallExpr:
@@ -933,8 +940,11 @@ func checkFlexSem(w *World, r *Report, fd *ast.FuncDecl, caseConsts map[int64]*a
 		if code == 0x0c25 {
 			variants = []int64{code, -code}
 		}
-		bad := ""
+		bad := condProblem
 		for vi, v := range variants {
+			if bad != "" {
+				break
+			}
 			want := spec[v]
 			var got []map[int]int
 			for _, c := range calls {
@@ -1436,4 +1446,81 @@ func checkMoveState(w *World, r *Report, fn *ssa.Function) {
 	}
 	r.Floor("movestate", 2)
 	_ = n
+}
+
+// flex1ThenCase reads the test that selects between the two forms of flex1:
+// the specification takes the first form when |dx| > |dy| (dx, dy the sums of
+// the first five horizontal resp. vertical deltas) and the second otherwise,
+// ties included.  Returns 1 when the then-branch is the case |dx| > |dy|, 2
+// when it is the case |dx| <= |dy|, 0 (with a reason) for anything else.
+func flex1ThenCase(cond ast.Expr, lin func(ast.Expr) (map[int]int, bool)) (int, string) {
+	negated := false
+	for {
+		switch x := cond.(type) {
+		case *ast.ParenExpr:
+			cond = x.X
+			continue
+		case *ast.UnaryExpr:
+			if x.Op == token.NOT {
+				negated = !negated
+				cond = x.X
+				continue
+			}
+		}
+		break
+	}
+	be, ok := cond.(*ast.BinaryExpr)
+	if !ok {
+		return 0, "flex1: the test between the two forms is not a comparison of |dx| and |dy|"
+	}
+	absArg := func(e ast.Expr) (map[int]int, bool) {
+		for {
+			p, ok := e.(*ast.ParenExpr)
+			if !ok {
+				break
+			}
+			e = p.X
+		}
+		c, ok := e.(*ast.CallExpr)
+		if !ok || len(c.Args) != 1 || !strings.HasSuffix(types.ExprString(c.Fun), "Abs") {
+			return nil, false
+		}
+		return lin(c.Args[0])
+	}
+	l, ok1 := absArg(be.X)
+	r, ok2 := absArg(be.Y)
+	if !ok1 || !ok2 {
+		return 0, "flex1: the test between the two forms is not a comparison of |dx| and |dy|"
+	}
+	isSum := func(m map[int]int, parity int) bool {
+		if len(m) != 5 {
+			return false
+		}
+		for k := parity; k < 10; k += 2 {
+			if m[k] != 1 {
+				return false
+			}
+		}
+		return true
+	}
+	op := be.Op
+	switch {
+	case isSum(l, 0) && isSum(r, 1): // |dx| op |dy|
+	case isSum(l, 1) && isSum(r, 0): // |dy| op |dx|: mirror
+		op = map[token.Token]token.Token{token.LSS: token.GTR, token.GTR: token.LSS, token.LEQ: token.GEQ, token.GEQ: token.LEQ}[op]
+	default:
+		return 0, "flex1: the test between the two forms does not compare the sums of the first five horizontal and vertical deltas"
+	}
+	if negated {
+		op = map[token.Token]token.Token{token.LSS: token.GEQ, token.GEQ: token.LSS, token.GTR: token.LEQ, token.LEQ: token.GTR}[op]
+	}
+	switch op {
+	case token.GTR:
+		return 1, ""
+	case token.LEQ:
+		return 2, ""
+	case token.GEQ, token.LSS:
+		return 0, "flex1: when |dx| equals |dy| the first form is chosen (or the second form only for |dx| < |dy|); the specification gives ties to the second form"
+	}
+	return 0, "flex1: the test between the two forms is not an order comparison"
 }
